@@ -7,7 +7,7 @@ From Coq Require Import List Arith ZArith.
 Import ListNotations.
 From YP Require Import Base.Str Term.Term Unify.Unify Unify.UnifyGen Lang.Ast Comp.IR Comp.CompileClause Sem.Machine
   Sem.Native Engine.GenMachine Engine.Restore Engine.RunGen Engine.IRMachine Engine.QueryFacts Engine.Refine Engine.RefineCompiled
-  Engine.RefineNative Engine.RefineExc Engine.RefineRaising Engine.RunMachine.
+  Engine.RefineNative Engine.RefineExc Engine.RefineRaising Engine.RunMachine Engine.FindallRaise Engine.DelayedClose.
 
 (* A unification generator created under ANY heap h and driven by ANY sequence of
    __next__ / close() (= drop) operations:
@@ -308,6 +308,67 @@ Theorem C03_machine_refines_nqueryE : forall p ir, compile_program p = Some ir -
     /\ (length (fst (NE.nqueryE d (mkwE ir efix evar dyn) name args (mkst h nx))) < k -> hf = h).
 Proof. exact machine_refines_nqueryE. Qed.
 Print Assumptions C03_machine_refines_nqueryE.
+
+(* ROUND 3 - an exception raised inside findall/3's OWN frame while the goal's generator object is suspended at an answer
+   (the RecursionError of get_value(template): the answer could be computed within the recursion limit, copying it cannot).
+   findall_r rz = the builtin with `if rz(frame state): raise` in front of the copy, rz an ARBITRARY predicate of findall's
+   frame state (results collected so far included); installed in the engine program of C03_compiled_query_restores in
+   place of the builtin.  For every IR program, fact database, registered predicates, rz, query (findall anywhere below it),
+   fuel, recursion limit and abandonment point: close / throw / exhaustion / the exception give back the initial heap -
+   also through evaluate_bounded. *)
+Theorem C03_findall_copy_raise_restores :
+  forall (ir : ir_program) (facts : str -> nat -> list fact) (user : str -> list term -> option (code lx fr callp * fr))
+         (rz : fr -> bool) n d k h name args nx hf itf ys r,
+  m_nexts ir facts (with_findall_r rz user) n d k h (m_query ir facts (with_findall_r rz user) name args nx) = Some (hf, itf, ys, r) ->
+  m_iclose hf itf = h
+  /\ ithrow lclose hf itf = (h, IDone, RRaise)
+  /\ (r <> RYield -> hf = h)
+  /\ Forall (fun y => exists nw, y = nw ++ h) ys.
+Proof. exact findall_copy_raise_restores. Qed.
+Print Assumptions C03_findall_copy_raise_restores.
+
+Theorem C03_findall_copy_raise_bounded_restores :
+  forall (ir : ir_program) (facts : str -> nat -> list fact) (user : str -> list term -> option (code lx fr callp * fr))
+         (rz : fr -> bool) n d k h name args nx hf ys,
+  bounded_m ir facts (with_findall_r rz user) n d k h name args nx = Some (hf, ys) -> hf = h.
+Proof. exact findall_copy_raise_bounded_restores. Qed.
+Print Assumptions C03_findall_copy_raise_bounded_restores.
+
+(* the scenario itself: the goal's generator delivers an answer (it is then suspended, it1, its bindings are in h1), the copy
+   raises: findall's frame ends by the exception, and the heap that arrives is h1 with the suspended generator closed = h *)
+Theorem C03_findall_copy_raise_step :
+  forall (ir : ir_program) (facts : str -> nat -> list fact) (user : str -> list term -> option (code lx fr callp * fr))
+         (rz : fr -> bool) n d h t g l (e : fr) h1 it1,
+  rz e = true ->
+  m_inext ir facts (with_findall_r rz user) (S (S (S n))) d h
+    (mkiter mkleaf (prog ir facts (with_findall_r rz user)) (call_expr g [] (f_nxt e) e h) h) = Some (h1, it1, RYield) ->
+  m_inext ir facts (with_findall_r rz user) (S (S (S (S (S (S (S n))))))) (S d) h (IFresh (findall_r rz t g l) e)
+    = Some (m_iclose h1 it1, IDone, RRaise)
+  /\ m_iclose h1 it1 = h.
+Proof. exact findall_r_raise_step. Qed.
+Print Assumptions C03_findall_copy_raise_step.
+
+(* The ORDER of finalisation does not matter.  In CPython the suspended goal generator of the scenario above sits in a local
+   of findall's frame, which the traceback keeps alive: it is finalised when the exception object dies, AFTER the enclosing
+   generators were closed by the unwinding; the machine closes it first.  For the engine instance closing a generator object
+   removes exactly the cells its leaves own, from any heap: closing `it` after the continuation k was unwound = closing it
+   first; any two generator objects can be closed in either order. *)
+Theorem C03_delayed_close_commutes : forall (it : iter leaf lx fr callp) (k : kont leaf lx fr callp) h,
+  iclose lclose (unwind lclose h k) it = unwind lclose (iclose lclose h it) k.
+Proof. exact delayed_close_commutes. Qed.
+Print Assumptions C03_delayed_close_commutes.
+
+Theorem C03_close_order_irrelevant : forall (it1 it2 : iter leaf lx fr callp) h,
+  iclose lclose (iclose lclose h it1) it2 = iclose lclose (iclose lclose h it2) it1.
+Proof. exact close_order_irrelevant. Qed.
+Print Assumptions C03_close_order_irrelevant.
+
+(* non-vacuity: findall(g(X), p(X), L) over the facts p(a). p(f(b)). under a non-empty heap: without a raising copy one
+   answer L = [g(a), g(f(b))]; when the copy of the SECOND answer raises (the goal is suspended at p(f(b)) with X bound)
+   the exception arrives with exactly the initial heap *)
+Example C03_findall_copy_raises_nonvacuous :
+  ex_findall_run (fun e => Nat.eqb (length (f_acc e)) 1) 1 = Some ([(7, TAtom (d "keep"))], IDone, [], RRaise).
+Proof. exact ex_findall_copy_raises. Qed.
 
 (* non-vacuity: a query three frames deep yields an answer with two new bindings on top of a
    non-empty heap, and asking for the next answer makes a user predicate raise; the heap is then
